@@ -6,6 +6,8 @@ import OsacaVerif.Lemmas.DGraph
 
   `DG.isMemload st ld-instruction state` is the model of `is_memload` (with the AArch64 prefix repair);
   `DG.updateState` of `_update_reg_changes` (with the copy-of-a-copy repair).
+  Repaired code (repo-fix.diff, notes/C06.md): a symbolic displacement (`Mem.sym`) is comparable only with the very same
+  symbol (`DG.dispDelta`); the scan starts from `DG.startState p` = the producer's changes AND its own post-index write-back.
 -/
 namespace OsacaVerif.Props.C06
 open OsacaVerif OsacaVerif.Text OsacaVerif.DG
@@ -24,7 +26,7 @@ theorem same_location_edge (pre name : Txt) (ds dl v : Int) (s : RegState)
     (h : dl - ds + v = 0) :
     isMemload (memOp (some { pre := pre, name := name }) none 1 (some ds))
       (loadIns (memOp (some { pre := pre, name := name }) none 1 (some dl))) s = true := by
-  simp [isMemload, loadIns, memOp, fullName, hs]
+  simp [isMemload, dispDelta, loadIns, memOp, fullName, hs]
   omega
 
 /-- untouched base register (no entry in the state): dependency iff the displacements are equal -/
@@ -32,7 +34,7 @@ theorem untouched_iff_disp_eq (pre name : Txt) (ds dl : Int) (s : RegState)
     (hs : lookup s (pre ++ name) = none) :
     isMemload (memOp (some { pre := pre, name := name }) none 1 (some ds))
       (loadIns (memOp (some { pre := pre, name := name }) none 1 (some dl))) s = decide (dl = ds) := by
-  simp [isMemload, loadIns, memOp, fullName, hs]
+  simp [isMemload, dispDelta, loadIns, memOp, fullName, hs]
   by_cases h : dl = ds
   · simp [h]
   · simp [h]; omega
@@ -43,7 +45,7 @@ theorem no_edge_when_disp_differs (pre name : Txt) (ds dl v : Int) (s : RegState
     (h : dl - ds + v ≠ 0) :
     isMemload (memOp (some { pre := pre, name := name }) none 1 (some ds))
       (loadIns (memOp (some { pre := pre, name := name }) none 1 (some dl))) s = false := by
-  simp [isMemload, loadIns, memOp, fullName, hs]
+  simp [isMemload, dispDelta, loadIns, memOp, fullName, hs]
   omega
 
 /-- **no dependency when the base registers differ** (the load's base is tracked as a copy of a
@@ -52,13 +54,13 @@ theorem no_edge_when_regs_differ (sb lb : Reg) (origin : Txt) (ds dl v : Int) (s
     (hs : lookup s (fullName lb) = some (some { name := origin, value := v }))
     (hne : fullName sb ≠ origin) :
     isMemload (memOp (some sb) none 1 (some ds)) (loadIns (memOp (some lb) none 1 (some dl))) s = false := by
-  simp [isMemload, loadIns, memOp, hs, hne]
+  simp [isMemload, dispDelta, loadIns, memOp, hs, hne]
 
 /-- a register changed beyond reconstruction never yields a dependency -/
 theorem no_edge_when_unknown (sb lb : Reg) (ds dl : Int) (s : RegState)
     (hs : lookup s (fullName lb) = some none) :
     isMemload (memOp (some sb) none 1 (some ds)) (loadIns (memOp (some lb) none 1 (some dl))) s = false := by
-  simp [isMemload, loadIns, memOp, hs]
+  simp [isMemload, dispDelta, loadIns, memOp, hs]
 
 /-- every tracked update writes exactly one entry: the register's own -/
 theorem updateOne_setReg (s : RegState) (reg : Txt) (change : Option Change) :
@@ -172,32 +174,109 @@ theorem tracks_preserved (ρ0 ρ ρ' : Val) (s : RegState) (ch : List (Txt × Op
     the valuation `ρ0` at the store and `is_memload` reports a dependency, a memory source operand of
     the instruction has *exactly* the store's address, `base (+ index·scale) + displacement`
     evaluated at the store (`ρ0`) resp. at the load (`ρ`).  No side condition. -/
-theorem tracking_sound (ρ0 ρ : Val) (st : Mem) (i : Ins) (s : RegState) (h : Tracks ρ0 ρ s)
+theorem tracking_sound (σ : Txt → Int) (ρ0 ρ : Val) (st : Mem) (i : Ins) (s : RegState) (h : Tracks ρ0 ρ s)
     (hm : isMemload st i s = true) :
-    ∃ ld, Op.mem ld ∈ i.src ++ i.srcDst ∧ addr st ρ0 = addr ld ρ :=
-  isMemload_sound ρ0 ρ st i s h hm
+    ∃ ld, Op.mem ld ∈ i.src ++ i.srcDst ∧ addr σ st ρ0 = addr σ ld ρ :=
+  isMemload_sound σ ρ0 ρ st i s h hm
 
 /-- **`store_load_edge_sound`** (the property end to end, ∀ kernels): every store→load emission of
     `find_depending` for producer `p` names a memory destination `m` of `p` and an instruction `c` of
     the following code such that, starting from ANY valuation `ρ0`, for EVERY execution of `p`'s
-    changes, of the instructions before `c`, and of `c`'s own pre-access changes, some memory source
-    operand of `c` has the same concrete address as `m` had at the store. -/
-theorem store_load_edge_sound (isa : Isa) (p : Ins) (rest : List Ins) (l : Nat) (tg : Tag)
+    changes AND of `p`'s own post-index write-back (`changesPost`: `str x1, [x2], #8` leaves `x2 + 8`),
+    of the instructions before `c`, and of `c`'s own pre-access changes, some memory source
+    operand of `c` has the same concrete address as `m` had at the store — for EVERY meaning `σ` of the
+    symbols that occur as displacements (a symbol is an unknown but fixed address constant). -/
+theorem store_load_edge_sound (σ : Txt → Int) (isa : Isa) (p : Ins) (rest : List Ins) (l : Nat) (tg : Tag)
     (h : (l, tg) ∈ findDependingMem isa p rest) :
     ∃ m, Op.mem m ∈ p.dst ++ p.srcDst ∧ ∃ j c, rest[j]? = some c ∧ c.line = l ∧ tg = Tag.storeLoad ∧
-      ∀ ρ0 ρ1 ρj ρ', Exec ρ0 p.changes ρ1 → ExecSeq ρ1 (rest.take j) ρj → Exec ρj c.changes ρ' →
-        ∃ ld, Op.mem ld ∈ c.src ++ c.srcDst ∧ addr m ρ0 = addr ld ρ' := by
+      ∀ ρ0 ρa ρ1 ρj ρ', Exec ρ0 p.changes ρa → Exec ρa p.changesPost ρ1 →
+        ExecSeq ρ1 (rest.take j) ρj → Exec ρj c.changes ρ' →
+        ∃ ld, Op.mem ld ∈ c.src ++ c.srcDst ∧ addr σ m ρ0 = addr σ ld ρ' := by
   simp only [findDependingMem, List.mem_flatMap] at h
   obtain ⟨d, hd, hmem⟩ := h
   cases d with
   | mem m =>
-    obtain ⟨j, c, hj, hl, htg, hall⟩ := scanMem_sound isa m rest l tg _ hmem
+    obtain ⟨j, c, hj, hl, htg, hall⟩ := scanMem_sound σ isa m rest l tg _ hmem
     refine ⟨m, hd, j, c, hj, hl, htg, ?_⟩
-    intro ρ0 ρ1 ρj ρ' h0 hseq hc
-    exact hall ρ0 ρ1 ρj ρ' (tracks_updateState ρ0 ρ0 ρ1 [] _ (tracks_init ρ0) h0) hseq hc
+    intro ρ0 ρa ρ1 ρj ρ' h0 h1 hseq hc
+    exact hall ρ0 ρ1 ρj ρ'
+      (tracks_updateState ρ0 ρa ρ1 _ _ (tracks_updateState ρ0 ρ0 ρa [] _ (tracks_init ρ0) h0) h1) hseq hc
   | reg r => simp [memPart] at hmem
   | flag n => simp [memPart] at hmem
   | other => simp [memPart] at hmem
+
+/-! ### the storing instruction's own post-index write-back -/
+
+/-- `str …, [b], #n`: memory destination `[b]` (post-indexed), no pre-access change, write-back `b := b + n` -/
+def postStore (b : Reg) (n : Int) : Ins :=
+  { line := 1, src := [], dst := [.mem { memOp (some b) none 1 none with post := true }], srcDst := [],
+    lat := 0, latWoLoad := none, hasLd := false, isLd := false, changes := [],
+    changesPost := [(fullName b, some { name := fullName b, value := n })] }
+
+theorem startState_postStore (b : Reg) (n : Int) :
+    lookup (startState (postStore b n)) (fullName b) = some (some { name := fullName b, value := n }) := by
+  simp [startState, postStore, updateState, updateOne, lookup, setReg]
+
+/-- **`post_indexed_store_edge`** (∀ base registers, ∀ immediates `n ≠ 0`): after `store [b], #n` a load from
+    `[b, #-n]` is the address-exact store→load dependency, and a load from `[b]` (which reads `b_old + n`) is not. -/
+theorem post_indexed_store_edge (b : Reg) (n : Int) (hn : n ≠ 0) :
+    isMemload (memOp (some b) none 1 none) (loadIns (memOp (some b) none 1 (some (-n))))
+        (startState (postStore b n)) = true ∧
+    isMemload (memOp (some b) none 1 none) (loadIns (memOp (some b) none 1 none))
+        (startState (postStore b n)) = false := by
+  have hs := startState_postStore b n
+  constructor
+  · simp [isMemload, dispDelta, loadIns, memOp, dispDelta, hs]
+  · simp [isMemload, dispDelta, loadIns, memOp, dispDelta, hs, hn]
+
+-- non-vacuity, through the whole scan: `str x1, [x2], #8 ; ldr x3, [x2, #-8]` is emitted, `… ; ldr x3, [x2]` is not
+example :
+    let x2 : Reg := { pre := ofString "x", name := ofString "2" }
+    findDependingMem .a64 (postStore x2 8) [loadIns (memOp (some x2) none 1 (some (-8)))] = [(2, Tag.storeLoad)] ∧
+    findDependingMem .a64 (postStore x2 8) [loadIns (memOp (some x2) none 1 none)] = [] := by
+  decide +kernel
+
+/-! ### symbolic displacements -/
+
+/-- **`no_edge_symbol_vs_number`**: a symbolic displacement against a numeric or absent one (either way round) is
+    never a dependency — whatever registers, scales and tracked state -/
+theorem no_edge_symbol_vs_number (st ld : Mem) (s : RegState)
+    (h : (st.sym.isSome ∧ ld.sym = none) ∨ (st.sym = none ∧ ld.sym.isSome)) :
+    isMemload st (loadIns ld) s = false := by
+  have hd : dispDelta st ld = none := by
+    unfold dispDelta
+    rcases h with ⟨h1, h2⟩ | ⟨h1, h2⟩
+    · cases hs : st.sym with
+      | none => simp [hs] at h1
+      | some a => simp [h2]
+    · cases hl : ld.sym with
+      | none => simp [hl] at h2
+      | some a => simp [h1]
+  simp [isMemload, loadIns, hd]
+
+/-- **`no_edge_different_symbols`**: two different symbols are never a dependency -/
+theorem no_edge_different_symbols (st ld : Mem) (a b : Txt) (s : RegState)
+    (ha : st.sym = some a) (hb : ld.sym = some b) (hne : a ≠ b) :
+    isMemload st (loadIns ld) s = false := by
+  have hd : dispDelta st ld = none := by simp [dispDelta, ha, hb, hne]
+  simp [isMemload, loadIns, hd]
+
+/-- the same symbol with the same (untouched) base register IS a dependency, and its address is exact for every
+    meaning of the symbol (`store_load_edge_sound`) -/
+theorem same_symbol_edge (b : Reg) (a : Txt) (s : RegState) (hs : lookup s (fullName b) = none) :
+    isMemload { memOp (some b) none 1 none with sym := some a }
+      (loadIns { memOp (some b) none 1 none with sym := some a }) s = true := by
+  simp [isMemload, dispDelta, loadIns, memOp, dispDelta, hs]
+
+-- non-vacuity: `movq %rax, foo(%rcx) ; movq foo(%rcx), %rbx` / `… bar(%rcx)` / `… 8(%rcx)`
+example :
+    let rcx : Reg := { name := ofString "rcx" }
+    let foo : Mem := { memOp (some rcx) none 1 none with sym := some (ofString "foo") }
+    let bar : Mem := { memOp (some rcx) none 1 none with sym := some (ofString "bar") }
+    isMemload foo (loadIns foo) [] = true ∧ isMemload foo (loadIns bar) [] = false ∧
+    isMemload foo (loadIns (memOp (some rcx) none 1 (some 8))) [] = false ∧
+    isMemload (memOp (some rcx) none 1 none) (loadIns bar) [] = false := by
+  decide +kernel
 
 -- non-vacuity: a concrete execution exists (`rbx := rbx + 8` from a valuation with rbx = 100) and the
 -- invariant holds of the tracked state; the conclusion of `tracking_sound` is then 100 + 8 = 108 + 0
@@ -212,8 +291,8 @@ example :
 
 example :
     let ρ0 : Val := fun r => if r = ofString "rbx" then 100 else 0
-    addr (memOp (some { name := ofString "rbx" }) none 1 (some 8)) ρ0 = 108 ∧
-    addr (memOp (some { name := ofString "rbx" }) none 1 (some 0)) (ρ0.set (ofString "rbx") 108) = 108 := by
+    addr (fun _ => 0) (memOp (some { name := ofString "rbx" }) none 1 (some 8)) ρ0 = 108 ∧
+    addr (fun _ => 0) (memOp (some { name := ofString "rbx" }) none 1 (some 0)) (ρ0.set (ofString "rbx") 108) = 108 := by
   decide +kernel
 
 /-- no side condition on rename sources (`copy_then_clobber`): `rcx := rbx`, then `rbx` is changed
